@@ -4,7 +4,7 @@ from .. import env, histgen, session, wire, scripts, refmatch as rm
 from ..runner import Prop, Stage, Result
 from .c08 import gen_chatter
 
-PROFILE = dict(reuse=0.6, weights=dict(newer=4, delete=16, bind=12, message=40, server_event=8, sync=6, enum=16, title=6, kinds=18))
+PROFILE = dict(reuse=0.6, weights=dict(repeat=4, newer=4, delete=16, bind=12, message=40, server_event=8, sync=6, enum=16, title=6, kinds=18))
 PALETTE = ['2;37', '1;96', '36', '1;94', None, '95', '2;35', '93', '1;33', '35', '1;37', '1;92', '1;91', '1;31', '0', '']
 ESC = '\x1b'
 
@@ -46,6 +46,15 @@ class Sessions(Stage):
                                                           'matcher', 'matcher ' + scripts.gen_matcher_text(d, g), 'matcher (', 'list ~ x', 'li', 'frob', '', 'connection Q',
                                                           'filter ' + d.choice(scripts.MALFORMED), 'breakpoint ' + d.choice(scripts.MALFORMED)])])
             else: extra.append(['cmd', 'list ' + scripts.gen_matcher_text(d, g)])
+        # label matchers over enum-decorated messages (what a matcher compares must not carry presentation) and the long help texts
+        V = rm.vocab(specs)
+        labs = [str(x) for x in (V.get('label') or [])]
+        if labs and d.chance(0.6):
+            for _ in range(d.int(1, 3)):
+                lab = d.choice(labs)
+                extra.append(['cmd', d.choice(['list (%s)', 'list .(%s)', 'filter (%s)', 'list * ! (%s)', 'breakpoint (%s)']) % lab])
+        if d.chance(0.25):
+            extra.append(['cmd', d.choice(['help matcher', 'help wlmatcher', 'h matcher', 'help', 'help list', 'help connection'])])
         # splice the extras at drawn positions
         for e in extra:
             items.insert(d.int(0, len(items)), e)
@@ -186,6 +195,65 @@ class PasteBack(Stage):
         return res
 
 
+class CliTexts(Stage):
+    """the texts main.py prints on its own (matcher help, usage, argument errors, a whole file shown with -l and a prompt script)
+    under --color and -C, from fresh processes"""
+    name = 'cli-texts'
+
+    def examples(self, tier):
+        return 10 if tier == 'quick' else 14 * 20
+
+    def gen(self, d, tier):
+        k = d.weighted([(3, 'matcher-help'), (1, 'usage'), (2, 'bad-option'), (4, 'file')])
+        if k == 'file':
+            specs = histgen.history(d, nconn=d.int(1, 2), nmsg=d.int(3, 14), profile=PROFILE)
+            g = rm.Gen(d, rm.vocab(specs), 1)
+            cmds = [d.choice(['help matcher', 'help', 'connection', 'list', 'list ' + scripts.gen_matcher_text(d, g), 'matcher ' + scripts.gen_matcher_text(d, g), 'filter (', 'frob'])
+                    for _ in range(d.int(0, 4))]
+            return dict(kind=k, lines=[wire.render(m, 'new') for m in specs], cmds=cmds, filter=scripts.gen_matcher_text(d, g) if d.chance(0.3) else None)
+        if k == 'bad-option':
+            return dict(kind=k, argv=d.choice([['-f', '('], ['-b', 'a.b.c'], ['-l'], ['--nonsense'], ['-f', 'x ! y ! z', '-p'], ['-Crx', 'prog']]))
+        return dict(kind=k)
+
+    def execute(self, case):
+        from .. import cli
+        res = Result()
+        res.evals = 0
+        with cli.Scratch() as sc:
+            if case['kind'] == 'matcher-help':
+                base, stdin = ['--matcher-help'], b''
+            elif case['kind'] == 'usage':
+                base, stdin = ['-h'], b''
+            elif case['kind'] == 'bad-option':
+                base, stdin = list(case['argv']), b'q\n'
+            else:
+                log = sc.write('f.log', ''.join(l + '\n' for l in case['lines']))
+                base = ['-l', log] + (['-f', case['filter']] if case.get('filter') else [])
+                stdin = ''.join(c + '\n' for c in case['cmds']).encode() + b'q\n'
+            rp = cli.run_main(['-C'] + base, stdin=stdin)
+            rc = cli.run_main(['--color'] + base, stdin=stdin)
+        if rp[0] is None or rc[0] is None:
+            res.label('timeout(inconclusive)')
+            return res
+        if rp[0] != rc[0]:
+            res.bad('cli:exit-status-depends-on-colour', '%r: -C exits %r, --color exits %r' % (base, rp[0], rc[0]))
+        for nm, a, b in (('stdout', rp[1], rc[1]), ('stderr', rp[2], rc[2])):
+            a, b = a.decode('utf-8', 'replace'), b.decode('utf-8', 'replace')
+            res.evals += len(a.split('\n'))
+            if ESC in a:
+                i = a.index(ESC)
+                res.bad('cli:escape-with-colour-disabled:' + nm, '%r: %r' % (base, a[max(0, i - 40):i + 40]))
+            sb = strip(b)
+            if sb != a:
+                la, lb = a.split('\n'), sb.split('\n')
+                k = next((i for i, (x, y) in enumerate(zip(la, lb)) if x != y), min(len(la), len(lb)))
+                res.bad('cli:stripped-colour-differs:' + nm, '%r line %d: -C %r, --color stripped %r' % (base[:1], k, la[k] if k < len(la) else None, lb[k] if k < len(lb) else None))
+        res.nontrivial = True
+        res.label('cli-' + case['kind'])
+        res.sample = dict(kind=case['kind'], argv=[str(x)[:60] for x in base])
+        return res
+
+
 class C17(Prop):
     id = 'C17'
     rule = ('sessions: a generated history with chatter, an Unknown-argument line, an unresolved object, commands of every kind including '
@@ -196,7 +264,7 @@ class C17(Prop):
             'non-trivial = session printing an enum label, a destroyed annotation, an error line and a listing / a paste-back with a coloured '
             'segment; distinct by SHA-1 of the case.')
     assumptions = ['escape sequences are the SGR sequences the tool emits (\\x1b[...m)']
-    stages = [Sessions(), PasteBack()]
+    stages = [Sessions(), PasteBack(), CliTexts()]
 
 
 PROP = C17()
